@@ -40,6 +40,13 @@
 (*   49-53).  FALSE: `delete(_ptr); _ptr = new(sz)` -- between the two     *)
 (*   calls _ptr holds the address of a released block.  TRUE: the new      *)
 (*   block is published first, the old one is released afterwards.         *)
+(*   For one thread both orders are correct.  For two threads on a         *)
+(*   reusable_storage_mtsafe only TRUE is: with FALSE a heap-fallback      *)
+(*   block of the other thread can get the released address, dealloc's     *)
+(*   `ptr == me->_ptr` (coro_storage.h:169) then takes it for the shared   *)
+(*   block: _busy is cleared while the block is in use, the fallback block *)
+(*   is never freed (Storage_mt2alloc.cfg, Fixed = FALSE: violates         *)
+(*   HeapFallbackFreedOnce, MtSafeNeverShares, Exclusive).                 *)
 (***************************************************************************)
 EXTENDS Naturals, Sequences, FiniteSets, TLC
 
